@@ -328,7 +328,14 @@ impl Session {
     pub fn ctx_from_json(&mut self, text: &str, events: &mut Vec<Value>) {
         let before = last_error();
         let leaked: &'static str = Box::leak(text.to_string().into_boxed_str());
-        let ok = ffi::wirefilter_deserialize_json_to_execution_context(&mut self.fctx, leaked.as_ptr(), leaked.len());
+        // the C caller owns its buffer: it is overwritten and released as soon as the call returns
+        let ok = {
+            let mut buf: Vec<u8> = text.as_bytes().to_vec();
+            let ok = ffi::wirefilter_deserialize_json_to_execution_context(&mut self.fctx, buf.as_ptr(), buf.len());
+            buf.iter_mut().for_each(|b| *b = b'#');
+            drop(buf);
+            ok
+        };
         use serde::de::DeserializeSeed;
         let mut de = serde_json::Deserializer::from_reader(leaked.as_bytes());
         let rr = (&mut self.rctx).deserialize(&mut de);
@@ -375,9 +382,9 @@ pub fn random_session(r: &mut StdRng, th: usize, steps: usize) -> Vec<Value> {
             }
             5 => {
                 // error inputs: NUL inside, invalid UTF-8, garbage
-                let inputs: [&[u8]; 10] = [b"i == 1 \x00", b"s == \"a\x00b\" oops", b"\xff\xfe == 1", b"i ==", b"nosuch == 1", b"s == \"\xc3\x28\"",
-                                           b"i == 1\x00", b"i == 1 ||\n\x00i == 2", b"\x00", b"i == 1 and\n\x00\x00"];
-                let t = inputs[r.random_range(0..10)];
+                let inputs: [&[u8]; 12] = [b"i == 1 \x00", b"s == \"a\x00b\" oops", b"\xff\xfe == 1", b"i ==", b"nosuch == 1", b"s == \"\xc3\x28\"",
+                                           b"i == 1\x00", b"i == 1 ||\n\x00i == 2", b"\x00", b"i == 1 and\n\x00\x00", b"i == 1 \x00 and \x00 1", b"s == \"\x00a\x00\" x"];
+                let t = inputs[r.random_range(0..12)];
                 let _ = s.parse(t, &mut events);
             }
             6 => {
